@@ -6,3 +6,9 @@ package event
 
 //@ type FanOut
 //@   field eventConsumers guarded_by eventConsumersLock
+
+// Interface contract: handing an event to a consumer is one Call event carrying the consumer and the event.
+//@ func IConsumer.ConsumeEvent
+//@   assumed
+//@   modifies nothing
+//@   emits Call(code("event|IConsumer.ConsumeEvent"), this, arg0)
